@@ -22,6 +22,13 @@ const M = ^uint32(0)
 
 var tokAlpha = []uint32{0, 1, 2, M - 2, M - 1, M}
 
+func init() {
+	if ev.Thorough() {
+		// two mid-range tokens more: assignments in which the boundary tokens are not neighbours on the circle
+		tokAlpha = []uint32{0, 1, 2, 1 << 31, 1<<31 + 1, M - 2, M - 1, M}
+	}
+}
+
 func keys() []uint32 {
 	set := map[uint32]bool{0: true, M: true, 1 << 31: true}
 	for _, t := range tokAlpha {
